@@ -265,10 +265,11 @@ func (n *Node[T]) BuildBlock(ctx context.Context, parent Block, timestamp int64)
 		return Block{}, err
 	}
 
+	validityWindowDuration := n.ruleFactory.GetRules(timestamp).GetValidityWindow()
 	availableChunkCerts := make([]*ChunkCertificate, 0)
 	for i, chunkCert := range gatheredChunkCerts {
-		// avoid building blocks with duplicate or expired chunk certs
-		if chunkCert.Expiry < timestamp || duplicates.Contains(i) {
+		// avoid building blocks with duplicate, expired or not yet valid chunk certs
+		if chunkCert.Expiry < timestamp || chunkCert.Expiry > timestamp+validityWindowDuration || duplicates.Contains(i) {
 			continue
 		}
 		availableChunkCerts = append(availableChunkCerts, chunkCert)
@@ -329,12 +330,18 @@ func (n *Node[T]) Verify(ctx context.Context, parent Block, block Block) error {
 		return err
 	}
 
+	validityWindowDuration := n.ruleFactory.GetRules(block.Timestamp).GetValidityWindow()
 	for _, chunkCert := range block.ChunkCerts {
 		if err := chunkCert.Verify(
 			ctx,
 			n.chainState,
 		); err != nil {
 			return fmt.Errorf("%w %s: %w", ErrInvalidWarpSignature, chunkCert.ChunkID, err)
+		}
+		// Every referenced chunk must be within its validity window at the block timestamp:
+		// replay protection only tracks chunk certificates until they expire.
+		if err := validitywindow.VerifyTimestamp(chunkCert.Expiry, block.Timestamp, validityWindowTimestampDivisor, validityWindowDuration); err != nil {
+			return fmt.Errorf("%w %s: %w", ErrInvalidChunkCertificate, chunkCert.ChunkID, err)
 		}
 	}
 
